@@ -523,7 +523,11 @@ func (i *interpreter) runPath(h *ssa.Function, item workItem) (res *PathResult) 
 				case abortEngine:
 					res.Outcome = "engine"
 				case abortBudget:
-					res.Outcome = "budget"
+					// the step budget is far above what any harness needs: running out
+					// of it is taken as non-termination and must be confirmed natively
+					// (the native run has to time out), else it is a spurious candidate
+					res.Outcome = "ok"
+					i.safeViolation("hang", x.msg+" (non-termination?)")
 				case abortDeadlock:
 					res.Outcome = "ok"
 					i.safeViolation("deadlock", x.msg)
